@@ -17,6 +17,8 @@ def content_bytes(c):
     """
     if "hex" in c:
         return bytes.fromhex(c["hex"])
+    if "zeros" in c:
+        return bytes(c["zeros"])            # big files (behaviour that depends on a size threshold)
     n = c.get("len", 0)
     if "uniq" in c:
         return hashlib.shake_128(("uniq:" + c["uniq"]).encode()).digest(n)
